@@ -82,7 +82,25 @@ class Concatenator(Transformer):
 
             reindexed_data_list.append(reindexed)
 
-        X_concat: DataArray = xr.concat(reindexed_data_list, dim=self.feature_name)
+        # All elements must provide the same samples. If a sample is entirely
+        # missing in some elements only, these elements have dropped it, and an
+        # outer join would silently re-introduce it as NaN
+        # (elements without any valid feature do not contribute and are skipped)
+        non_empty = [
+            data for data in reindexed_data_list if data.sizes[self.feature_name] > 0
+        ]
+        try:
+            X_concat: DataArray = xr.concat(
+                non_empty if non_empty else reindexed_data_list,
+                dim=self.feature_name,
+                join="exact",
+            )
+        except ValueError as err:
+            raise ValueError(
+                "The data objects do not share the same samples. This may be due to "
+                "isolated NaN values (samples that are missing in some of the data "
+                "objects only)."
+            ) from err
         self.coords_out = X_concat.coords[self.feature_name]
 
         return X_concat
